@@ -17,8 +17,8 @@ From Coq Require Import List ZArith NArith Bool Lia.
 Import ListNotations.
 Open Scope Z_scope.
 
-Definition sstr := list N.        (* a string *)
-Definition sname := list N.       (* a counter style name *)
+Notation sstr := (list N) (only parsing).        (* a string *)
+Notation sname := (list N) (only parsing).       (* a counter style name *)
 
 Fixpoint srepeat (s : sstr) (n : nat) : sstr :=
   match n with O => [] | S k => s ++ srepeat s k end.
